@@ -432,8 +432,8 @@ def check_walks(v, name, invariants, dev, n, length):
                                  length, common.seed())
         gf = os.path.join(wd, 'walks_%s.json' % var)
         with open(gf, 'w') as f:
-            json.dump({'nodes': g['nodes'], 'out': g['out'],
-                       'edges': g['edges']}, f)
+            json.dump(common.jsonable({'nodes': g['nodes'], 'out': g['out'],
+                                       'edges': g['edges']}), f)
         r = _tlc_g2(fam, wd, cfg, alphabet, gf, 8, 'MCW_' + var,
                     complete=False, ghosts=True, invariants=invariants)
         v.log('  [%s/%s] %d random histories of length <= %d (%d steps, '
@@ -532,8 +532,9 @@ def check_config(v, name, invariants, dev, variants=None):
                 return ('REJECT', rep)
             gf = os.path.join(wd, 'graph_%s.json' % var)
             with open(gf, 'w') as f:
-                json.dump({'nodes': g['nodes'], 'out': g['out'],
-                           'edges': g['edges']}, f)
+                json.dump(common.jsonable(
+                          {'nodes': g['nodes'], 'out': g['out'],
+                           'edges': g['edges']}), f)
             graphs[var] = (g, gf, ex.submit(_tlc_g2, fam, wd, cfg, alphabet, gf, 4,
                                             'MCG_' + var,
                                             not g.get('partial')))
